@@ -94,6 +94,10 @@ pub enum Extra {
     FileNested,
     DirNonEmpty,
     Symlink,
+    /// an extra symlink to a directory outside of the destination; sorts before the other extras
+    SymlinkToDirOutside,
+    /// an extra symlink to a directory of the destination (`..`), first entry of its directory
+    SymlinkToDirInside,
 }
 
 #[derive(Clone, Debug, Serialize, Deserialize)]
@@ -264,6 +268,8 @@ fn extra_paths(x: &Extra) -> (&'static str, &'static str) {
         Extra::FileNested => ("r/d/zz_extra_nested", "file"),
         Extra::DirNonEmpty => ("r/zz_extra_dir", "dir"),
         Extra::Symlink => ("r/zz_extra_link", "symlink"),
+        Extra::SymlinkToDirOutside => ("r/zy_extra_link_to_outside_dir", "symlink"),
+        Extra::SymlinkToDirInside => ("r/d/a_extra_link_up", "symlink"),
     }
 }
 
@@ -281,7 +287,12 @@ fn plant_extra(dest: &Path, x: &Extra) {
             fs::create_dir_all(path.join("sub")).unwrap();
             fs::write(path.join("sub/f"), b"extra nested content").unwrap();
         }
-        _ => std::os::unix::fs::symlink("a", &path).unwrap(),
+        _ => match x {
+            // dest = <case>/dest  ->  <case>/outside (a directory)
+            Extra::SymlinkToDirOutside => std::os::unix::fs::symlink(dest.parent().unwrap().join("outside"), &path).unwrap(),
+            Extra::SymlinkToDirInside => std::os::unix::fs::symlink("..", &path).unwrap(),
+            _ => std::os::unix::fs::symlink("a", &path).unwrap(),
+        },
     }
 }
 
@@ -648,7 +659,11 @@ pub fn run(args: &Args, rep: &mut Report) {
             }
             v
         };
-        let extras_sets: Vec<Vec<Extra>> = vec![vec![], vec![Extra::FileAtRoot, Extra::FileNested, Extra::DirNonEmpty, Extra::Symlink]];
+        let extras_sets: Vec<Vec<Extra>> = vec![
+            vec![],
+            vec![Extra::FileAtRoot, Extra::FileNested, Extra::DirNonEmpty, Extra::Symlink],
+            vec![Extra::FileAtRoot, Extra::FileNested, Extra::DirNonEmpty, Extra::Symlink, Extra::SymlinkToDirOutside, Extra::SymlinkToDirInside],
+        ];
         // clean destination and singles: all option sets
         for (delete, verify, sparse, noown) in &option_sets {
             for extras in &extras_sets {
